@@ -14,16 +14,57 @@ import cfdm
 from cfdm import decorators
 
 DEC = decorators._manage_log_level_via_verbosity
-CALLS = DEC.__defaults__[0]
 FUNC = {"atol": cfdm.atol, "rtol": cfdm.rtol, "level": cfdm.log_level}
+
+
+def find_counters():
+    """The decorator's nesting counter(s), wherever the code keeps them: a mutable default
+    argument of the decorator (as at the pinned commit), or a list of one int in the closure of
+    a decorated function.  An empty result means the counter cannot be observed from outside;
+    the nesting depth is then reported as 0 and only the logging state is compared."""
+    out = []
+    for d in (DEC.__defaults__ or ()):
+        if isinstance(d, list) and len(d) == 1 and isinstance(d[0], int):
+            out.append(d)
+    if not out:
+        @DEC
+        def probe_fn(verbose=None):
+            return None
+        for cell in (probe_fn.__closure__ or ()):
+            try:
+                d = cell.cell_contents
+            except ValueError:
+                continue
+            if isinstance(d, list) and len(d) == 1 and isinstance(d[0], int):
+                out.append(d)
+    return out
+
+
+COUNTERS = find_counters()
 
 
 class Boom(Exception):
     pass
 
 
+class BaseBoom(BaseException):
+    pass
+
+
+EXC = {"Exception": Boom, "BaseException": BaseBoom, "KeyboardInterrupt": KeyboardInterrupt,
+       "SystemExit": SystemExit, "GeneratorExit": GeneratorExit}
+RAISES = (ValueError, Boom, BaseBoom, KeyboardInterrupt, SystemExit, GeneratorExit)
+CURRENT = {"exc": Boom}
+TRACE = []
+
+
+def probe():
+    return [str(cfdm.log_level().value), int(logging.root.manager.disable), int(logging.getLogger().level)]
+
+
 def reset():
-    CALLS[0] = 0
+    for c in COUNTERS:
+        c[0] = 0
     cfdm.log_level("WARNING")
     cfdm.atol(1000)
     cfdm.rtol(2000)
@@ -33,7 +74,7 @@ def full():
     a = cfdm.atol().value
     r = cfdm.rtol().value
     return [str(cfdm.log_level().value), int(logging.root.manager.disable),
-            int(logging.getLogger().level), int(CALLS[0]),
+            int(logging.getLogger().level), int(sum(c[0] for c in COUNTERS)),
             int(a) if float(a).is_integer() else a, int(r) if float(r).is_integer() else r]
 
 
@@ -63,16 +104,20 @@ def make_call(tree):
 
     @DEC
     def f(verbose=None):
+        # what code running inside the call sees: at the start of the body and after every
+        # nested call that returned, or raised and was caught
+        TRACE.append(probe())
         for sub, catch in items:
             if catch:
                 try:
                     make_call(sub)()
-                except Exception:
+                except BaseException:
                     pass
             else:
                 make_call(sub)()
+            TRACE.append(probe())
         if end == "raise":
-            raise Boom()
+            raise CURRENT["exc"]()
 
     v = conv_verbose(tree["v"])
     return lambda: f(verbose=v)
@@ -96,7 +141,7 @@ def run_stmt(st):
     elif kind == "call":
         make_call(st[1])()
     elif kind == "raise":
-        raise Boom()
+        raise CURRENT["exc"]()
     else:
         raise RuntimeError("bad stmt")
 
@@ -105,20 +150,25 @@ def do_blocks(cases):
     for i, c in enumerate(cases):
         reset()
         row = {"i": i}
+        CURRENT["exc"] = Boom
         try:
             run_block(c["pre"])
-        except (ValueError, Boom):
+        except RAISES:
             pass
+        CURRENT["exc"] = EXC[c.get("exc", "Exception")]
         row["e0"] = full()
+        del TRACE[:]
         exc = None
         try:
             run_block(c["b"])
-        except (ValueError, Boom) as e:
+        except RAISES as e:
             exc = type(e).__name__
         except Exception as e:  # unexpected class
             exc = "UNEXPECTED:" + type(e).__name__ + ":" + str(e)[:200]
         row["e1"] = full()
         row["exc"] = exc
+        row["tr"] = list(TRACE)
+        row["counters"] = len(COUNTERS)
         print(json.dumps(row), flush=True)
 
 
@@ -187,27 +237,87 @@ def do_reflect(verbose_values, levels):
                                   "after": after, "exc": exc}), flush=True)
 
 
-def do_equals():
+def _ragged(delta):
+    import numpy as np
+    arr = np.array([1.0, 2.0, 3.0, 4.0, 5.0, 6.0])
+    arr[4] += delta
+    ra = cfdm.RaggedContiguousArray(
+        compressed_array=cfdm.Data(arr), shape=(2, 4), size=8, ndim=2,
+        count_variable=cfdm.Count(data=cfdm.Data([2, 4])))
+    return cfdm.Data(ra)
+
+
+def _gathered(delta):
+    import numpy as np
+    arr = np.array([[1.0, 2.0, 3.0], [4.0, 5.0, 6.0]])
+    arr[1, 1] += delta
+    ga = cfdm.GatheredArray(
+        compressed_array=cfdm.Data(arr), compressed_dimensions={1: (1, 2)}, shape=(2, 2, 3), size=12, ndim=3,
+        list_variable=cfdm.List(data=cfdm.Data([0, 2, 5])))
+    return cfdm.Data(ga)
+
+
+def equal_pairs():
+    """(name, x, y, extra keyword sets): y differs from x by 0.5 in one element, reached
+    through a different nesting of equals each time."""
     import numpy as np
     out = []
     f = cfdm.example_field(0)
     g = f.copy()
-    g.data[0, 0] = float(f.data[0, 0].array[0, 0]) + 0.5  # differs by 0.5
-    for glob in (0, 1000):
-        for loc in (0, 1000):
-            reset()
-            cfdm.atol(glob)
-            cfdm.rtol(glob)
-            before = full()
-            r_local = f.equals(g, atol=loc, rtol=loc)
-            mid = full()
-            r_global = f.equals(g)
-            after = full()
-            r_data = f.data.equals(g.data, atol=loc, rtol=loc)
-            print(json.dumps({"glob": glob, "loc": loc, "r_local": bool(r_local),
-                              "r_data": bool(r_data),
-                              "r_global": bool(r_global), "before": before, "mid": mid,
-                              "after": after}), flush=True)
+    g.data[0, 0] = float(f.data[0, 0].array[0, 0]) + 0.5
+    out.append(("field-data", f, g, [{}]))
+    out.append(("data", f.data, g.data, [{}]))
+    h = f.copy()
+    c = h.construct("latitude")
+    b = c.bounds.data.array.copy()
+    b[0, 0] += 0.5
+    c.set_bounds(cfdm.Bounds(data=cfdm.Data(b, units=c.bounds.data.get_units(None))))
+    out.append(("field-coordinate-bounds", f, h, [{}]))
+    out.append(("coordinate-bounds", f.construct("latitude"), c, [{}]))
+    k = cfdm.example_field(1)
+    m = k.copy()
+    da = m.construct("ncvar%a")
+    a = da.data.array.copy()
+    a[0] += 0.5
+    da.set_data(cfdm.Data(a, units=da.data.get_units(None)))
+    out.append(("field-domain-ancillary", k, m, [{}]))
+    cm = m.copy()
+    out.append(("constructs", k.constructs, m.constructs, [{}]))
+    for name, mk in (("ragged", _ragged), ("gathered", _gathered)):
+        try:
+            x, y = mk(0.0), mk(0.5)
+        except Exception as e:  # noqa
+            print(json.dumps({"skip": name, "why": type(e).__name__ + ": " + str(e)[:200]}), flush=True)
+            continue
+        out.append((name + "-data", x, y, [{}, {"ignore_compression": False}, {"ignore_compression": True}]))
+        ax = cfdm.AuxiliaryCoordinate(properties={"long_name": "c"}, data=x)
+        ay = cfdm.AuxiliaryCoordinate(properties={"long_name": "c"}, data=y)
+        out.append((name + "-construct", ax, ay, [{}, {"ignore_compression": False}]))
+    return out
+
+
+def do_equals():
+    for name, x, y, kws in equal_pairs():
+        for kw in kws:
+            for glob in (0, 1000):
+                for loc in (0, 1000):
+                    reset()
+                    cfdm.atol(glob)
+                    cfdm.rtol(glob)
+                    before = full()
+                    row = {"pair": name, "kw": kw, "glob": glob, "loc": loc}
+                    try:
+                        row["r_local"] = bool(x.equals(y, atol=loc, rtol=loc, **kw))
+                        row["r_local_rev"] = bool(y.equals(x, atol=loc, rtol=loc, **kw))
+                        mid = full()
+                        row["r_global"] = bool(x.equals(y, **kw))
+                        row["r_self"] = bool(x.equals(x.copy(), atol=0, rtol=0, **kw))
+                    except Exception as e:  # noqa
+                        row["exc"] = type(e).__name__ + ": " + str(e)[:200]
+                        mid = full()
+                    after = full()
+                    row.update({"before": before, "mid": mid, "after": after})
+                    print(json.dumps(row), flush=True)
 
 
 def main():
